@@ -10,7 +10,8 @@ func usage() {
 	fmt.Fprintln(os.Stderr, `usage:
   govc check <property-id> [--tier quick|thorough] [--repo DIR] [--update-golden] [-v]
   govc dump  <pkg> <func-key-substring> [--repo DIR]
-  govc replay <replay.json>`)
+  govc replay <replay.json>
+  govc conform <property-id> [--repo DIR]`)
 	os.Exit(2)
 }
 
@@ -25,6 +26,8 @@ func main() {
 		os.Exit(cmdCheck(os.Args[2:]))
 	case "replay":
 		os.Exit(cmdReplay(os.Args[2:]))
+	case "conform":
+		os.Exit(cmdConform(os.Args[2:]))
 	default:
 		usage()
 	}
